@@ -284,10 +284,17 @@ class ExprMixin:
     def e_BinOp(self, node, st):
         a = self.deopt(self.eval(node.left, st), st, node)
         b = self.deopt(self.eval(node.right, st), st, node)
+        if isinstance(node.op, (ast.BitAnd, ast.BitOr, ast.Sub, ast.BitXor)):
+            a, b = self.setlike_view(a, st, node), self.setlike_view(b, st, node)
         if isinstance(node.op, (ast.FloorDiv, ast.Mod, ast.Div)) and not (a.ty == T.STR):
             if not is_const(b) and T.is_num(b.ty):
                 self.safety(st, lift(b) != 0, "ZeroDivisionError", node)
-        return ops.binop(node.op, a, b, node)
+        r = ops.binop(node.op, a, b, node)
+        if isinstance(node.op, ast.Add) and isinstance(r.ty, T.List) and not r.is_py and getattr(self.c, "seq_bridge", False):
+            from . import models
+
+            models.bridge_concat(self, st, r.term, [lift(a, r.ty), lift(b, r.ty)])
+        return r
 
     def e_BoolOp(self, node, st):
         is_and = isinstance(node.op, ast.And)
@@ -380,9 +387,109 @@ class ExprMixin:
             pop_guards(st, mark)
         return bool_val(z_and(*res))
 
+    def order_special(self, op, a, b, st, node):
+        """`<` & co on python-level tuples (lexicographic, component i compared only when the earlier components are equal,
+        as Python does - so a TypeError of a later component is conditional) and on Union values (both operands must be the same
+        alternative: TypeError obligation otherwise)."""
+        def items(v):
+            if v.is_py and isinstance(v.py, tuple) and not ops.is_carrier(v.py):
+                return [x if isinstance(x, Val) else Val.const(x) for x in v.py]
+            return None
+
+        ia, ib = items(a), items(b)
+        if ia is not None and ib is not None and not (is_const(a) and is_const(b)):
+            if isinstance(op, (ast.Gt, ast.GtE)):
+                ia, ib = ib, ia
+            strict = isinstance(op, (ast.Lt, ast.Gt))
+
+            def lex(i):
+                if i == len(ia) or i == len(ib):
+                    return (len(ia) < len(ib)) if strict else (len(ia) <= len(ib))
+                eq = ops.equal(ia[i], ib[i])
+                lt = self.compare(ast.Lt(), ia[i], ib[i], st, node)
+                if eq is False:
+                    return lt
+                mark = len(st.pc)
+                if eq is not True:
+                    push_guard(st, eq)
+                try:
+                    rest = lex(i + 1)
+                finally:
+                    pop_guards(st, mark)
+                return z_or(lt, z_and(eq, rest))
+
+            return lex(0)
+        if isinstance(a.ty, T.Union) and a.ty == b.ty and not a.is_py and not b.is_py:
+            s_ = a.ty.sort()
+            same, parts = [], []
+            for i, alt in enumerate(a.ty.alts):
+                both = z3.And(getattr(s_, f"is_alt{i}")(a.term), getattr(s_, f"is_alt{i}")(b.term))
+                try:
+                    mark = len(st.pc)
+                    push_guard(st, both)
+                    try:
+                        c = self.compare(op, Val(alt, getattr(s_, f"v{i}")(a.term)), Val(alt, getattr(s_, f"v{i}")(b.term)), st, node)
+                    finally:
+                        pop_guards(st, mark)
+                except Unsupported:
+                    continue  # this alternative has no order: comparing two such values is a TypeError (not in `same`)
+                same.append(both)
+                parts.append(z_and(both, c))
+            self.safety(st, z_or(*same) if same else False, "TypeError", node)
+            return z_or(*parts) if parts else False
+        return None
+
+    def setlike_view(self, v, st, node):
+        """`d.keys()` / `d.items()` are set-like: in comparisons and set operators they behave as the set of keys / (key, value) pairs"""
+        if v.is_py and ops.is_carrier(v.py) and v.py[0] == "iterinfo":
+            meta = getattr(v.py[1], "dict_items", None)
+            if meta is not None and meta[2] in ("keys", "items"):
+                from . import models
+
+                return models.carrier_to_set(self, st, v.py[1], node)
+        return v
+
+    def items_views(self, a, b):
+        def meta(v):
+            if v.is_py and ops.is_carrier(v.py) and v.py[0] == "iterinfo":
+                m = getattr(v.py[1], "dict_items", None)
+                if m is not None and m[2] == "items":
+                    return m
+            return None
+
+        ma, mb = meta(a), meta(b)
+        if ma is not None and mb is not None and ma[0] == mb[0]:
+            return ma, mb
+        return None
+
     def compare(self, op, a, b, st, node):
+        if isinstance(op, (ast.Lt, ast.LtE, ast.Gt, ast.GtE, ast.Eq, ast.NotEq)):
+            iv = self.items_views(a, b)
+            if iv is not None:
+                # d1.items() <= d2.items(): every entry of d1 is an entry of d2 (stated key-wise, no sets of pairs)
+                (dt, da, _), (_, db, _) = iv
+                s_ = dt.sort()
+                k = fresh(dt.k, "ik")
+
+                def sub(x, y):
+                    return z3.ForAll([k], z3.Implies(z3.Select(s_.dom(x), k), z3.And(z3.Select(s_.dom(y), k), z3.Select(s_.map(x), k) == z3.Select(s_.map(y), k))))
+
+                le, ge = sub(da, db), sub(db, da)
+                if isinstance(op, ast.LtE):
+                    return le
+                if isinstance(op, ast.GtE):
+                    return ge
+                if isinstance(op, ast.Eq):
+                    return z3.And(le, ge)
+                if isinstance(op, ast.NotEq):
+                    return z3.Not(z3.And(le, ge))
+                return z3.And(le, z3.Not(ge)) if isinstance(op, ast.Lt) else z3.And(ge, z3.Not(le))
+            a, b = self.setlike_view(a, st, node), self.setlike_view(b, st, node)
         if isinstance(op, (ast.Lt, ast.LtE, ast.Gt, ast.GtE)):
             a, b = self.deopt(a, st, node), self.deopt(b, st, node)
+            r = self.order_special(op, a, b, st, node)
+            if r is not None:
+                return r
         if isinstance(op, (ast.In, ast.NotIn)):
             b = self.deopt(b, st, node)
             if b.is_py and ops.is_carrier(b.py) and b.py[0] == "iterinfo":
